@@ -116,6 +116,11 @@ func (e *specEnv) lookup(name string) (Val, bool) {
 		return boolVal("false"), true
 	case "nil":
 		return Val{T: "nil", Sort: "Nil"}, true
+	case "now":
+		// the ghost clock: the latest value returned by time.Now() (time.Time as nanoseconds)
+		v := x.lookupHeap(e.st, "G:$now", x.vc.intSort())
+		v.GoT = types.Typ[types.Int64]
+		return v, true
 	}
 	// Go local at the invariant's position
 	if e.pos != token.NoPos {
@@ -124,6 +129,20 @@ func (e *specEnv) lookup(name string) (Val, bool) {
 				if v, ok := obj.(*types.Var); ok && !x.isGlobal(v) {
 					return x.getVar(e.st, v), true
 				}
+			}
+		}
+	}
+	if e.pos != token.NoPos && x.body != nil {
+		// a local declared in a nested block, if its name is unique in the function
+		var found []*types.Var
+		for id, obj := range x.pkg.TypesInfo.Defs {
+			if v, ok := obj.(*types.Var); ok && id.Name == name && !v.IsField() && id.Pos() >= x.body.Pos() && id.Pos() <= x.body.End() {
+				found = append(found, v)
+			}
+		}
+		if len(found) == 1 {
+			if _, ok := e.st.vars[found[0]]; ok {
+				return x.getVar(e.st, found[0]), true
 			}
 		}
 	}
@@ -576,6 +595,10 @@ func (e *specEnv) call(s *SExpr) Val {
 			i.T, vc.intSort(), j.T, vc.intSort(),
 			vc.cmp("<=", vc.intLit(0), i.T, true), vc.cmp("<", i.T, j.T, true), vc.cmp("<", j.T, vc.slLen(sv), true),
 			vc.slArr(sv), i.T, vc.slArr(sv), j.T))
+	case "unixnano":
+		// unixnano(n): the time.Time whose UnixNano() is n
+		x.vc.declConst("unix_epoch_offset", x.vc.intSort())
+		return e.intVal(x.vc.arith("+", "unix_epoch_offset", argv(0).T, true))
 	case "haskey":
 		mv := argv(0)
 		k := argv(1)
